@@ -163,8 +163,8 @@ class PipeSpec(SeqSpec):
     # ------------------------------------------------------------------ direct oracle
     def oracle(self, case, obs):
         """The clauses of C10 evaluated on the recorded history alone (no model)."""
-        if not obs.get("aux", {}).get("quiescent", True):
-            return []          # inconclusive: no structural quiescence within the time limit
+        # a scenario that found no structural quiescence within the time limit stops there: its history is a prefix,
+        # the clauses about values and results still apply to it (those about blocked calls need a quiescence event)
         evs = obs["obs"]
         bufsize = case["cfg"]["buf"]
         fails = []
